@@ -47,17 +47,24 @@ func c17IsWrite(op string) bool {
 	return true
 }
 
-// c17HookGate: see the mapping harness; holds requests at their first mutating
-// storage operation until `need` have arrived there, or all racers are accounted for.
+// c17HookGate holds requests inside the check->record window until `need` of them are
+// there, or every racer is accounted for (inside, or returned while the gate was still
+// closed = refused at the check), or nothing has moved for c17Stall (the remaining
+// racers are blocked on something the code under test holds, e.g. a lock around
+// check+record: a scheduling decision, never a verdict). Every wait is capped.
 type c17HookGate struct {
-	n, need  int32
-	arrived  atomic.Int32
-	early    atomic.Int32
-	atOpen   atomic.Int32
-	open     chan struct{}
-	once     sync.Once
-	timedOut atomic.Bool
+	n, need     int32
+	arrived     atomic.Int32
+	early       atomic.Int32
+	atOpen      atomic.Int32
+	progress    atomic.Int64 // unix nanos of the last arrival / early return
+	open        chan struct{}
+	once        sync.Once
+	timedOut    atomic.Bool
+	stallOpened atomic.Bool
 }
+
+const c17Stall = 4 * time.Millisecond
 
 func c17NewHookGate(n, need int) *c17HookGate {
 	if need > n {
@@ -66,16 +73,22 @@ func c17NewHookGate(n, need int) *c17HookGate {
 	if need < 1 {
 		need = 1
 	}
-	return &c17HookGate{n: int32(n), need: int32(need), open: make(chan struct{})}
+	g := &c17HookGate{n: int32(n), need: int32(need), open: make(chan struct{})}
+	g.progress.Store(time.Now().UnixNano())
+	return g
+}
+
+func (g *c17HookGate) openNow() {
+	g.once.Do(func() {
+		g.atOpen.Store(g.arrived.Load())
+		close(g.open)
+	})
 }
 
 func (g *c17HookGate) maybeOpen() {
 	a := g.arrived.Load()
 	if a >= g.need || a+g.early.Load() >= g.n {
-		g.once.Do(func() {
-			g.atOpen.Store(a)
-			close(g.open)
-		})
+		g.openNow()
 	}
 }
 
@@ -93,17 +106,33 @@ func (g *c17HookGate) enter() {
 		return
 	}
 	g.arrived.Add(1)
+	g.progress.Store(time.Now().UnixNano())
 	g.maybeOpen()
-	select {
-	case <-g.open:
-	case <-time.After(c17Watchdog):
-		g.timedOut.Store(true)
+	began := time.Now()
+	for {
+		select {
+		case <-g.open:
+			return
+		case <-time.After(time.Millisecond):
+			if time.Since(time.Unix(0, g.progress.Load())) > c17Stall {
+				g.stallOpened.Store(true)
+				g.openNow()
+				return
+			}
+			if time.Since(began) > c17Watchdog {
+				g.timedOut.Store(true)
+				return
+			}
+		}
 	}
 }
 
+// returned: while the gate is closed every racer that arrived is still held, so a
+// return seen before the gate opens belongs to a racer refused at the check.
 func (g *c17HookGate) returned() {
 	if !g.isOpen() {
 		g.early.Add(1)
+		g.progress.Store(time.Now().UnixNano())
 		g.maybeOpen()
 	}
 }
@@ -141,26 +170,39 @@ type c17QWorld struct {
 	cancel context.CancelFunc
 	mem    *memory.Storage
 	g      *vk.Gated
-	svc    *ConnectionCodeService
+	svc    *ConnectionCodeService   // node 0
+	svcs   []*ConnectionCodeService // one per node, all on the same store
 	ccRepo *repos.ConnectionCodeRepository
 	pmRepo *repos.PortMappingRepo
 }
 
 var c17AddrSeq atomic.Int64
 
-func c17NewQWorld(codeQuota, mapQuota int) *c17QWorld {
+// c17NewQWorld assembles `nodes` service instances (each with its own repositories, id
+// manager and port-mapping service, as separate server processes would have) over one
+// shared store.
+func c17NewQWorld(codeQuota, mapQuota, nodes int) *c17QWorld {
 	ctx, cancel := context.WithCancel(context.Background())
 	w := &c17QWorld{cancel: cancel}
 	w.mem = memory.New(ctx)
 	w.g = vk.NewGated("mem", w.mem)
 	w.g.SetHook(nil)
-	repo := repos.NewRepository(w.g)
-	w.ccRepo = repos.NewConnectionCodeRepository(repo)
-	w.pmRepo = repos.NewPortMappingRepo(repo)
-	idm := idgen.NewIDManager(w.g, ctx)
-	pmSvc := NewPortMappingService(w.pmRepo, idm, nil, ctx)
-	w.svc = NewConnectionCodeService(w.ccRepo, pmSvc, w.pmRepo,
-		&ConnectionCodeServiceConfig{MaxActiveCodesPerClient: codeQuota, MaxActiveMappingsPerClient: mapQuota}, ctx)
+	if nodes < 1 {
+		nodes = 1
+	}
+	for i := 0; i < nodes; i++ {
+		repo := repos.NewRepository(w.g)
+		ccRepo := repos.NewConnectionCodeRepository(repo)
+		pmRepo := repos.NewPortMappingRepo(repo)
+		idm := idgen.NewIDManager(w.g, ctx)
+		pmSvc := NewPortMappingService(pmRepo, idm, nil, ctx)
+		svc := NewConnectionCodeService(ccRepo, pmSvc, pmRepo,
+			&ConnectionCodeServiceConfig{MaxActiveCodesPerClient: codeQuota, MaxActiveMappingsPerClient: mapQuota}, ctx)
+		w.svcs = append(w.svcs, svc)
+		if i == 0 {
+			w.svc, w.ccRepo, w.pmRepo = svc, ccRepo, pmRepo
+		}
+	}
 	return w
 }
 
@@ -190,8 +232,12 @@ func c17SnapDiff(a, b map[string]string) []string {
 }
 
 func (w *c17QWorld) createCode(target int64) (*models.TunnelConnectionCode, error) {
+	return w.createCodeOn(0, target)
+}
+
+func (w *c17QWorld) createCodeOn(node int, target int64) (*models.TunnelConnectionCode, error) {
 	n := c17AddrSeq.Add(1)
-	return w.svc.CreateConnectionCode(&CreateConnectionCodeRequest{
+	return w.svcs[node%len(w.svcs)].CreateConnectionCode(&CreateConnectionCodeRequest{
 		TargetClientID:  target,
 		TargetAddress:   fmt.Sprintf("tcp://10.17.%d.%d:%d", (n>>8)&0xff, n&0xff, 10000+int(n%50000)),
 		ActivationTTL:   10 * time.Minute,
@@ -202,8 +248,12 @@ func (w *c17QWorld) createCode(target int64) (*models.TunnelConnectionCode, erro
 }
 
 func (w *c17QWorld) activate(code string, listen int64) (*models.PortMapping, error) {
+	return w.activateOn(0, code, listen)
+}
+
+func (w *c17QWorld) activateOn(node int, code string, listen int64) (*models.PortMapping, error) {
 	n := c17AddrSeq.Add(1)
-	return w.svc.ActivateConnectionCode(&ActivateConnectionCodeRequest{
+	return w.svcs[node%len(w.svcs)].ActivateConnectionCode(&ActivateConnectionCodeRequest{
 		Code: code, ListenClientID: listen, ListenAddress: fmt.Sprintf("0.0.0.0:%d", 10000+int(n%50000)),
 	})
 }
@@ -231,6 +281,7 @@ type c17QCase struct {
 	N       int    `json:"n"`
 	Need    int    `json:"hold_until_counted"`
 	Mode    string `json:"mode"` // hold | free | sched | explore
+	Nodes   int    `json:"nodes"`
 }
 
 type c17QOutcome struct {
@@ -256,7 +307,8 @@ func c17Setup(w *c17QWorld, cs c17QCase) (reqs []func() error, probes func() (fu
 			}
 		}
 		for i := 0; i < cs.N; i++ {
-			reqs = append(reqs, func() error { _, err := w.createCode(c17Target); return err })
+			i := i
+			reqs = append(reqs, func() error { _, err := w.createCodeOn(i, c17Target); return err })
 		}
 		probes = func() (func() error, func() bool) {
 			return func() error { _, err := w.createCode(c17Target); return err }, func() bool { return true }
@@ -279,7 +331,8 @@ func c17Setup(w *c17QWorld, cs c17QCase) (reqs []func() error, probes func() (fu
 			return nil, nil, false
 		}
 		code := c.Code
-		reqs = append(reqs, func() error { _, err := w.activate(code, c17Listen); return err })
+		i := i
+		reqs = append(reqs, func() error { _, err := w.activateOn(i, code, c17Listen); return err })
 	}
 	probes = func() (func() error, func() bool) {
 		c, err := w.createCode(c17Target + 5000)
@@ -303,7 +356,12 @@ func (w *c17QWorld) active(cs c17QCase) int {
 	return w.activeMappings(c17Listen)
 }
 
-func c17Sig(cs c17QCase, what string) string { return "C17:" + cs.Kind + "|" + what }
+func c17Sig(cs c17QCase, what string) string {
+	if cs.Nodes > 1 {
+		return "C17:" + cs.Kind + "|" + what + "|cross-node"
+	}
+	return "C17:" + cs.Kind + "|" + what
+}
 
 // c17Judge applies the oracle to the state after a burst.
 func c17Judge(run *vk.Run, w *c17QWorld, cs c17QCase, errs []error, inWindow int, sched []string, probes func() (func() error, func() bool)) {
@@ -328,7 +386,10 @@ func c17Judge(run *vk.Run, w *c17QWorld, cs c17QCase, errs []error, inWindow int
 	if refused > 0 {
 		run.Count(pre+"refusals_seen", int64(refused))
 	}
-	run.Distinct(fmt.Sprintf("%s|%s|Q%d|P%d|N%d|K%d|adm%d|win%d", cs.Kind, cs.Mode, cs.Quota, cs.Prefill, cs.N, cs.Need, admitted, inWindow))
+	run.Distinct(fmt.Sprintf("%s|%s|nodes%d|Q%d|P%d|N%d|K%d|adm%d|win%d", cs.Kind, cs.Mode, cs.Nodes, cs.Quota, cs.Prefill, cs.N, cs.Need, admitted, inWindow))
+	if cs.Nodes > 1 {
+		run.Count(pre+"cross_node_trials", 1)
+	}
 	run.Sample(out)
 	if active > cs.Quota {
 		run.Violation(c17Sig(cs, "exceeded"), out)
@@ -364,13 +425,11 @@ func c17Judge(run *vk.Run, w *c17QWorld, cs c17QCase, errs []error, inWindow int
 
 // c17HoldTrial: real goroutines, racers held at their first mutating storage operation.
 func c17HoldTrial(run *vk.Run, cs c17QCase) {
-	w := c17NewQWorld(1000, 1000)
+	var w *c17QWorld
 	if cs.Kind == "code-quota" {
-		w.close()
-		w = c17NewQWorld(cs.Quota, 1000)
+		w = c17NewQWorld(cs.Quota, 1000, cs.Nodes)
 	} else {
-		w.close()
-		w = c17NewQWorld(1000, cs.Quota)
+		w = c17NewQWorld(1000, cs.Quota, cs.Nodes)
 	}
 	defer w.close()
 	reqs, probes, ok := c17Setup(w, cs)
@@ -405,6 +464,9 @@ func c17HoldTrial(run *vk.Run, cs c17QCase) {
 	if !okBarrier || gate.timedOut.Load() {
 		run.Count("watchdog", 1)
 		return
+	}
+	if gate.stallOpened.Load() {
+		run.Count("gate_opened_by_stall", 1)
 	}
 	c17Judge(run, w, cs, errs, int(gate.atOpen.Load()), nil, probes)
 }
@@ -467,9 +529,9 @@ func c17RecordPoint(cs c17QCase) (op, key string) {
 func c17SchedScenario(run *vk.Run, cs c17QCase, s *vk.Sched) func(bool) {
 	var w *c17QWorld
 	if cs.Kind == "code-quota" {
-		w = c17NewQWorld(cs.Quota, 1000)
+		w = c17NewQWorld(cs.Quota, 1000, cs.Nodes)
 	} else {
-		w = c17NewQWorld(1000, cs.Quota)
+		w = c17NewQWorld(1000, cs.Quota, cs.Nodes)
 	}
 	reqs, probes, ok := c17Setup(w, cs)
 	if !ok {
@@ -491,9 +553,12 @@ func c17SchedScenario(run *vk.Run, cs c17QCase, s *vk.Sched) func(bool) {
 		}
 		tr := s.Trace()
 		op, key := c17RecordPoint(cs)
-		run.Distinct(cs.Kind + "|" + cs.Mode + "|" + fmt.Sprint(cs.Quota, cs.N) + "|" + s.Fingerprint())
+		run.Distinct(cs.Kind + "|" + cs.Mode + "|" + fmt.Sprint(cs.Quota, cs.N, cs.Nodes) + "|" + s.Fingerprint())
 		run.Count(cs.Kind+"_schedules", 1)
 		if s.Stalls() > 0 {
+			if run.Counter("sched_stalls") == 0 {
+				run.Observe("first_stalled_schedule", map[string]any{"case": cs, "trace": tr})
+			}
 			run.Count("sched_stalls", int64(s.Stalls()))
 		}
 		c17Judge(run, w, cs, errs, c17WindowOverlap(tr, op, key), tr, probes)
@@ -512,6 +577,8 @@ func c17QuotaMonitor(t *testing.T, kind, name string) {
 		"mode free: spin barrier only; mode sched: every storage operation is a gate of vk.Sched with a seeded random chooser (N in {2,8}); mode explore: N=2, all schedules with <=2 preemptions (capped). " +
 		"distinct = (mode, Q, prefill, N, K, admitted, racers between count and record) and schedule fingerprints")
 	pre := kind + "_"
+	phase := map[string]float64{}
+	t0 := time.Now()
 	run.Floor(pre+"trials_2plus_in_window", 100)
 	run.Floor(pre+"refusals_seen", 50)
 	run.Floor(pre+"seq_refusals_checked", 50)
@@ -523,7 +590,10 @@ func c17QuotaMonitor(t *testing.T, kind, name string) {
 	for _, Q := range []int{1, 2, 5} {
 		for _, N := range []int{2, 8, 32} {
 			for rep := 0; rep < reps && run.Violations() < 20; rep++ {
-				cs := c17QCase{Kind: kind, Quota: Q, N: N, Mode: "hold", Prefill: Q - 1}
+				cs := c17QCase{Kind: kind, Quota: Q, N: N, Mode: "hold", Prefill: Q - 1, Nodes: 1}
+				if rep%5 == 4 {
+					cs.Nodes = 2 // racers alternate between two service instances on the shared store
+				}
 				if Q >= 2 && rep%4 == 3 {
 					cs.Prefill = Q - 2
 				}
@@ -542,12 +612,29 @@ func c17QuotaMonitor(t *testing.T, kind, name string) {
 			}
 		}
 	}
+	mark := func(name string) { phase[name] = time.Since(t0).Seconds(); t0 = time.Now(); run.Observe("phase_wall_s", phase) }
+	mark("hold+free")
 	// seeded random schedules at storage-operation granularity
 	schedReps := run.Pick(25, 400)
+	stallBudget := int64(run.Pick(50, 1500))
 	for _, Q := range []int{1, 2, 5} {
 		for _, N := range []int{2, 8} {
-			for rep := 0; rep < schedReps && run.Violations() < 20; rep++ {
-				cs := c17QCase{Kind: kind, Quota: Q, N: N, Mode: "sched", Prefill: Q - 1}
+			nrep := schedReps
+			if kind == "mapping-quota" && N > 2 {
+				// GenericRepository.Get wraps the storage read in a singleflight group: a racer that
+				// asks for a mapping another (parked) racer is fetching blocks off-gate, which the
+				// scheduler only resolves by its 150 ms stall rule. Keep these schedules few.
+				nrep = run.Pick(3, 40)
+			}
+			for rep := 0; rep < nrep && run.Violations() < 20; rep++ {
+				// every racer that blocks off-gate (singleflight, or a lock around count+create in a
+				// repaired tree) costs the scheduler its 150 ms stall rule: the number of such
+				// stalls, not time, bounds this phase
+				if run.Counter("sched_stalls") >= stallBudget {
+					run.Count("sched_trials_skipped_stall_budget", 1)
+					continue
+				}
+				cs := c17QCase{Kind: kind, Quota: Q, N: N, Mode: "sched", Prefill: Q - 1, Nodes: 1 + (rep%4)/3}
 				s := vk.NewSched(vk.RandomChooser{R: rand.New(rand.NewSource(r.Int63()))})
 				after := c17SchedScenario(run, cs, s)
 				okRun := s.Run(20000)
@@ -556,19 +643,21 @@ func c17QuotaMonitor(t *testing.T, kind, name string) {
 			}
 		}
 	}
+	mark("sched")
 	// bounded-preemption enumeration, two racers
 	exploreRuns := run.Pick(120, 3000)
 	for _, Q := range []int{1, 2} {
 		if run.Violations() >= 20 {
 			break
 		}
-		cs := c17QCase{Kind: kind, Quota: Q, N: 2, Mode: "explore", Prefill: Q - 1}
+		cs := c17QCase{Kind: kind, Quota: Q, N: 2, Mode: "explore", Prefill: Q - 1, Nodes: Q} // Q=2: the two racers sit on different nodes
 		st := vk.Explore(2, exploreRuns, 2000, func(s *vk.Sched) func(bool) { return c17SchedScenario(run, cs, s) })
 		run.Count(pre+"explore_schedules", int64(st.Distinct))
 		if st.Complete {
 			run.Count(pre+"explore_complete", 1)
 		}
 	}
+	mark("explore")
 }
 
 func TestVerifC17CodeQuota(t *testing.T)    { c17QuotaMonitor(t, "code-quota", "code-quota") }
